@@ -182,6 +182,28 @@ var scenarios = map[string]scenario{
 		}
 		return s.W
 	}},
+	// D18: a restarted primary answered its own proposal found in a recovery message and crashed on the next response.
+	"D18-restarted-primary-own-request": {Prop: "C11", Key: "panic:OnReceive", Run: func(keep bool) *sim.World {
+		s := sim.NewSolo(soloCfg(4, 1, -1), &ReplaySrc{}, 1, false, nil, keep)
+		s.N.Start() // height 2: primary of view 0 is 2, of view 1 is 1 = the node
+		cvs := []sim.Payload{s.CV(0, 0, 1), s.CV(2, 0, 1), s.CV(3, 0, 1)}
+		for _, cv := range cvs {
+			s.N.Receive(cv)
+		}
+		s.Fire() // primary of view 1 proposes
+		p1 := s.LastOwn(dbft.PrepareRequestType)
+		if p1 == nil || p1.V != 1 {
+			panic("scenario: no proposal in view 1")
+		}
+		s.W.Restart(s.N) // amnesia: back in view 0
+		emb := append(append([]sim.Payload{}, cvs...), p1, s.Response(0, 1, p1.Hash()), s.Response(3, 1, p1.Hash()))
+		s.N.Receive(s.Recovery(0, 1, emb...))
+		return s.W
+	}},
+	// D1 at the agreement level: with one Byzantine primary the unverified early commits fork N=4.
+	"D1-fork": {Prop: "C01", Key: "D1-fork-unverified-early-commit", Run: func(keep bool) *sim.World {
+		return sim.ScenarioD1Fork([]*sim.Mon{sim.MonC01()}, keep, &ReplaySrc{})
+	}},
 	// D12: the primary counted an early response naming another proposal.
 	"D12-primary-early-response": {Prop: "C04", Key: "commit-without-prep-quorum", Run: func(keep bool) *sim.World {
 		s := sim.NewSolo(soloCfg(7, 5, -1), &ReplaySrc{}, 0, false, []*sim.Mon{sim.MonC04()}, keep)
